@@ -93,8 +93,10 @@ def head (h : Heap) (s : Nat) : Heap × Option Nat :=
 def pop (h : Heap) (s : Nat) : Option (Heap × Nat) :=
   match (h.hdr s).head with
   | none =>
-    let (h, a) := h.alloc {}
-    some (h.setHdr s { h.hdr s with head := some a }, a)
+    let h := h.lazyInit s
+    match (h.hdr s).head with
+    | some a => some (h, a)
+    | none => none
   | some hd =>
     if (h.hdr s).length = 0 then some (h, hd)
     else
